@@ -577,6 +577,59 @@ def emit_lean(t, outdir):
     return written
 
 
+def lean_rat(s):
+    f = Fraction(s)
+    return '(%d / %d)' % (f.numerator, f.denominator)
+
+
+def emit_certs(t, outdir, verif):
+    """C05 composition certificates (finder: translate/compose.py; it never looks at coefficients)"""
+    import compose
+    r = compose.find(t)
+    try:
+        with open(os.path.join(verif, 'known_findings.json'), encoding='utf-8') as f:
+            kf = json.load(f)
+    except OSError:
+        kf = {'findings': []}
+    dev = {}
+    for fnd in kf.get('findings', []):
+        if fnd.get('key', {}).get('kind') == 'coefficient-deviation':
+            for u in fnd['key']['units']:
+                dev[(u['module'], u['unit'])] = u['bound']
+
+    def fac(f):
+        return '⟨%d, %d, %s, %d⟩' % (f[0], f[1], lean_int(f[2]), f[3])
+
+    def reading(rd):
+        return '[' + ', '.join('[' + ', '.join(fac(f) for f in g) + ']' for g in rd) + ']'
+
+    normal, deviant = [], []
+    for qi, ui, cs in r['composable']:
+        q = t['quantities'][qi]
+        key = (q['module'], q['units'][ui]['name'])
+        row = '  ⟨%d, %d, [%s]⟩' % (qi, ui, ', '.join(reading(c) for c in cs))
+        if key in dev:
+            deviant.append('  (%s, %s)' % (lean_rat(dev[key]), row.strip()))
+        else:
+            normal.append(row)
+    lines = ['-- GENERATED by translate/translate.py (finder: translate/compose.py) — do not edit', 'import Uom.Model.Compose', 'namespace Uom.Gen', 'open Uom', '']
+    chunks = chunked(normal, 60)
+    for i, ch in enumerate(chunks):
+        lines.append('def certs%d : List Cert := [\n%s]' % (i, ',\n'.join(ch)))
+    lines.append('def certChunks : List (List Cert) := [%s]' % ', '.join('certs%d' % i for i in range(len(chunks))))
+    lines.append('/-- composable units listed as known findings, each with its own recorded bound -/')
+    lines.append('def devCerts : List (Rat × Cert) := [\n%s]' % ',\n'.join(deviant))
+    lines.append('/-- units whose identifier reads as a composition, but of another dimension -/')
+    lines.append('def misnamed : List (Nat × Nat) := [%s]' % ', '.join('(%d, %d)' % x for x in r['misnamed']))
+    lines.append('def primitives : List (Nat × Nat) := [%s]' % ', '.join('(%d, %d)' % x for x in r['primitive']))
+    lines.append('end Uom.Gen')
+    t['compose'] = dict(composable=len(r['composable']), primitive=len(r['primitive']),
+                        misnamed=[[t['quantities'][qi]['module'], t['quantities'][qi]['units'][ui]['name']] for qi, ui in r['misnamed']],
+                        deviant=len(deviant))
+    t['_certs'] = [[qi, ui, cs] for qi, ui, cs in r['composable']]
+    return write_if_changed(os.path.join(outdir, 'Certs.lean'), '\n'.join(lines) + '\n')
+
+
 def emit_rust(t, outdir):
     """macros enumerating the SI so the harness can instantiate generic probes per quantity / unit."""
     lines = ['// GENERATED by translate/translate.py — do not edit', '']
@@ -611,6 +664,7 @@ def main():
                 g = expr_exact(u['cons'], t['prefixes'])
                 u['cons_exact'] = [g.numerator, g.denominator]
     changed = 0
+    changed += emit_certs(t, os.path.join(verif, 'lean', 'Uom', 'Gen'), verif)
     changed += write_if_changed(os.path.join(verif, 'build', 'table.json'), json.dumps(t, ensure_ascii=False, indent=0))
     changed += emit_lean(t, os.path.join(verif, 'lean', 'Uom', 'Gen'))
     changed += emit_rust(t, os.path.join(verif, 'harness', 'src', 'gen'))
